@@ -125,8 +125,8 @@ def run(ck):
                               dict(t3.describe(c), position=pos, form=c.form))
             else:
                 ck.report("run:" + cell, "the program did not run to completion: " + gk, dict(t3.describe(c), position=pos))
-    ck.corr_record("T3 position sweep (the same (value, pattern) wrapped in 16 positions: acceptance by rustc and verdict compared with the struct-field position and with the specification)",
+    ck.corr_record("T3 position sweep (the same (value, pattern) wrapped in 17 positions: acceptance by rustc and verdict compared with the struct-field position and with the specification)",
                    len(cases), len(nontriv), 0, dist,
                    samples=[dict(position=c.position, invocation="assert_struct!(%s)" % c.text, value=c.value_text, outcome=c.got[0]) for c in cases[:3]],
-                   rule="seeded (type, value, pattern) bases x {field, root, tuple element, variant element, slice element, set element, map value, Ok, Err, nested field, tuple index, index, deref, method result, wildcard-struct field, struct-variant field}; distinct = distinct (invocation, value); non-trivial = inner pattern is not `_`")
+                   rule="seeded (type, value, pattern) bases x {field, root, tuple element, variant element, slice element, set element, map value, Ok, Err, nested field, tuple index, index, deref, method result, wildcard-struct field, struct-variant field, method result returned by value}; distinct = distinct (invocation, value); non-trivial = inner pattern is not `_`")
     ck.assumptions += ["acceptance is decided by rustc itself (the oracle); the model's reference-level calculus is validated against it cell by cell, not proved about rustc"]
